@@ -9,7 +9,7 @@ for tier in $TIERS; do
   for seed in 0 1 2 7 12345; do
     for id in $IDS; do
       out=$(VERIF_SEED=$seed timeout 3600 ./check "$id" --tier "$tier" --no-evidence 2>&1); rc=$?
-      if [ $rc -ne 0 ]; then bad=$((bad+1)); echo "NONZERO id=$id tier=$tier seed=$seed rc=$rc"; echo "$out" | grep -E -A12 "VIOLATION|INCONCLUSIVE|mechanism=|Traceback" | head -30; fi
+      if [ $rc -ne 0 ]; then bad=$((bad+1)); echo "NONZERO id=$id tier=$tier seed=$seed rc=$rc"; printf "%s\n" "$out" | grep -E -A12 "VIOLATION|INCONCLUSIVE|mechanism=|Traceback" | head -30; fi
     done
     echo "done tier=$tier seed=$seed bad_so_far=$bad"
   done
